@@ -166,9 +166,14 @@ func (d *diff) Set(elements ...Element) {
 	for _, e := range elements {
 		hash := xxhash.Sum64([]byte(e.Id))
 		el := &element{Element: e, hash: hash}
-		d.sl.Remove(el)
+		isNew := d.sl.Remove(el) == nil
 		d.sl.Set(el, nil)
-		d.ranges.addElement(hash)
+		if isNew {
+			d.ranges.addElement(hash)
+		} else {
+			// an update doesn't change the number of elements, only the hash of its range
+			d.ranges.updateElement(hash)
+		}
 	}
 	d.ranges.recalculateHashes()
 }
